@@ -638,6 +638,17 @@ func checkMessage(m *bgp.BGPMessage, o *bgp.MarshallingOption, st *verifkit.Stat
 	if err != nil {
 		return nil, verifkit.Failf("reparse", "emitted %s does not parse back under the session's options %s: %v\n%s\n%x", kind, verifgen.OptString(o), err, jsonOf(m), wire)
 	}
+	// the decoder stops where the header says the message ends: other messages behind it in the buffer
+	// (a stream, a BMP Peer Up) do not change what is decoded
+	for _, tail := range [][]byte{wire, {0xff, 0xff, 0xff, 0xff, 0xff, 0xff, 0xff, 0xff, 0xff, 0xff, 0xff, 0xff, 0xff, 0xff, 0xff, 0xff, 0, 19, 4}, {0, 24, 10, 1, 2}} {
+		m3, err := bgp.ParseBGPMessage(append(append([]byte{}, wire...), tail...), recvOpt(o))
+		if err != nil {
+			return nil, verifkit.Failf("trailing-data", "%s followed by %d other octets in the buffer does not parse: %v", kind, len(tail), err)
+		}
+		if j2, j3 := jsonOf(m2.Body), jsonOf(m3.Body); j2 != j3 {
+			return nil, verifkit.Failf("trailing-data", "%s parses differently when %d other octets follow it in the buffer:\n alone    %s\n followed %s", kind, len(tail), j2, j3)
+		}
+	}
 	wire2, err := m2.Serialize(o)
 	if err != nil || !bytes.Equal(wire, wire2) {
 		return nil, verifkit.Failf("fixpoint", "parsed %s re-serialises differently (%v):\n %x\n %x", kind, err, wire, wire2)
